@@ -808,10 +808,16 @@ func impPasses() []string {
 	for _, fam := range grpFamilies {
 		res = append(res, fam.name)
 	}
-	return append(res, "H2F", "Set")
+	return append(res, "H2F", "Set", "KzgOpen") // imp_h2f.go; impkzg.go: Gen/Imp/KzgOpen_<curve>.lean
 }
 
 func runImp() {
+	if impOnly == "" || impOnly == "KzgOpen" {
+		runKzgOpen() // impkzg.go
+		if impOnly != "" {
+			return
+		}
+	}
 	// Element.Exp of every field package (template-generated: the texts must be identical up to the package name, which the
 	// generated `rfl` lemmas of Gen/Imp/ExpAll.lean check)
 	targets := append([]impTarget{}, impTargets...)
